@@ -128,9 +128,12 @@ def parse_args(argstr, names=()):
     return out
 
 
-def replay_concrete(mod, impl, case, args, names, timeout=120):
+def replay_concrete(mod, impl, case, args, names, timeout=120, witness=None):
     payload = json.dumps({'module': mod, 'impl': impl, 'case': list(case), 'args': [args[n] for n in names]})
-    p = subprocess.run([PY, '-m', 'vlib.replay', '--json', payload], cwd=ROOT, env=ENV, capture_output=True,
+    env = dict(ENV)
+    if witness and os.path.exists(witness):
+        env['VERIF_WITNESS_IN'] = witness
+    p = subprocess.run([PY, '-m', 'vlib.replay', '--json', payload], cwd=ROOT, env=env, capture_output=True,
                        text=True, timeout=timeout)
     for line in p.stdout.splitlines():
         if line.startswith('REPLAY-RESULT '):
@@ -149,8 +152,9 @@ def run_job(job):
     cmd = [XH, 'check', '--report_all', '--unblock', 'open', '--per_condition_timeout', str(job['timeout']),
            '--extra_plugin', PLUGIN, '--'] + targets
     hard = job['timeout'] * len(targets) + 90
+    env = dict(ENV, VERIF_WITNESS_OUT=job['path'][:-3] + '.witness.json')
     try:
-        p = subprocess.run(cmd, cwd=os.path.dirname(job['path']), env=ENV, capture_output=True, text=True,
+        p = subprocess.run(cmd, cwd=os.path.dirname(job['path']), env=env, capture_output=True, text=True,
                            timeout=hard)
         out, err = p.stdout, p.stderr
     except subprocess.TimeoutExpired as e:
@@ -311,8 +315,11 @@ def main(prop, mod, tier='quick', only=None, extra_evidence=None, pre_results=No
             if argstr is not None:
                 try:
                     args = parse_args(argstr, names)
-                    reason = replay_concrete(mod, ob['impl'], j['case'], args, names)
+                    wit = j['path'][:-3] + '.witness.json' if ob.get('real_model') else None
+                    reason = replay_concrete(mod, ob['impl'], j['case'], args, names, witness=wit)
                     rec['replay_reason'] = reason
+                    if wit and os.path.exists(wit):
+                        rec['witness'] = json.load(open(wit))
                 except Exception as e:  # noqa
                     reason = None
                     rec['replay_error'] = repr(e)
@@ -326,11 +333,15 @@ def main(prop, mod, tier='quick', only=None, extra_evidence=None, pre_results=No
                     os.makedirs(os.path.join(REPLAYS, prop), exist_ok=True)
                     rpath = os.path.join(REPLAYS, prop, '%s_%s.json' % (ob['id'], os.path.basename(j['path'])[3:-3]))
                     json.dump({'property': prop, 'obligation': ob['id'], 'module': mod, 'impl': ob['impl'],
+                               'witness': rec.get('witness'),
                                'case': list(j['case']), 'args': [args[n] for n in names], 'arg_names': names,
                                'reason': reason, 'crosshair': msg,
                                'replay_cmd': '%s -m vlib.replay --file <this file>' % PY}, open(rpath, 'w'), indent=1)
                     violations.append((ob['id'], rpath, reason))
                     rec['replay'] = rpath
+            elif ob.get('real_model'):
+                # the witness only fails over the reals (sits on a strict boundary of the binary64 run)
+                status = 'inconclusive (real-only witness)'
             else:
                 status = 'harness-error'
                 harness_errors.append((ob['id'], j['case'], msg, rec.get('replay_reason'), j['stderr'][-300:]))
